@@ -116,6 +116,25 @@ fn gen_c17(out: &mut Out, rng: &mut Rng, thorough: bool) {
         out.req("lang_rt", format!("lang_rt {code}"));
     }
     out.exhaustive.push("all 65536 language codes".to_string());
+    // every identifier through the summary information: set_languages, languages(), save, reopen
+    // (lists of 256 consecutive codes; then single codes, duplicates, the neutral 0 inside a list)
+    out.req("new", "new 0".into());
+    for chunk in 0..256u32 {
+        let codes: Vec<String> = (0..256u32).map(|k| (chunk * 256 + k).to_string()).collect();
+        out.req("summary_langs", format!("sum_set langs {}", codes.join(",")));
+        out.req("snapshot", "snapshot".into());
+        if chunk % 32 == 31 {
+            out.req("reopen", format!("reopen {}", crate::hist::CLOSE_MODES[(chunk as usize / 32) % 3]));
+            out.req("snapshot", "snapshot".into());
+        }
+    }
+    for l in ["0", "65535", "32768", "32767", "1033,0,1041", "0,0", "1033,1033", "65535,0,32768", "-"] {
+        out.req("summary_langs", format!("sum_set langs {l}"));
+        out.req("snapshot", "snapshot".into());
+        out.req("reopen", format!("reopen {}", rng.pick(&crate::hist::CLOSE_MODES)));
+        out.req("snapshot", "snapshot".into());
+    }
+    out.exhaustive.push("all 65536 language codes stored in and read back from the summary information".to_string());
     for &(code, tag) in WELL_KNOWN {
         out.req("well_known", format!("lang_tag {code}"));
         out.req("well_known", format!("lang_from_tag_rt {}", hex_of_str(tag)));
@@ -209,6 +228,20 @@ fn gen_c18(out: &mut Out, rng: &mut Rng, thorough: bool) {
     for s in -3i128..=3 {
         for d in [-101i128, -100, -99, -1, 0, 1, 99, 100, 101] {
             ts_req(out, "second_boundary", "ts_rt", s * 1_000_000_000 + d);
+        }
+    }
+    // distances from 1970 (either direction) at which the tick arithmetic leaves 64 bits: whole
+    // seconds around u64::MAX / 10^7, with every sub-second part near the point where seconds x
+    // 10^7 still fits and adding the sub-second ticks does not; and around u64::MAX / 10^7 +- 1
+    {
+        let s0: i128 = (u64::MAX / 10_000_000) as i128;
+        for ds in -2i128..=2 {
+            for f in [0i128, 1, 99, 100, 955_161_499, 955_161_500, 955_161_501, 955_161_599, 955_161_600, 955_161_601, 955_161_700, 999_999_899, 999_999_999] {
+                for sign in [1i128, -1] {
+                    ts_req(out, "tick_overflow", "ts_rt", sign * ((s0 + ds) * 1_000_000_000 + f));
+                    ts_req(out, "tick_overflow", "ts_save", sign * ((s0 + ds) * 1_000_000_000 + f));
+                }
+            }
         }
     }
     // extremes of the platform's SystemTime (i64 seconds)
@@ -365,6 +398,9 @@ fn gen_c13(out: &mut Out, rng: &mut Rng, thorough: bool) {
             out.req("names", format!("eval {} {}", if rng.chance(1, 2) { &qt } else { &qr }, e.to_line()));
         }
     }
+    // expressions as conditions: the rows a filter or a join keeps are those on which the
+    // expression is true (not zero, not null, not the empty string) - select trees as in C12
+    gen_c12_sessions(out, rng, if thorough { 20 } else { 2 }, if thorough { 600 } else { 250 });
     // depth 1, exhaustive: every operator on every (pair of) leaf
     for op in UNOPS {
         for a in &leaves {
@@ -1196,6 +1232,108 @@ fn gen_fk_directed(out: &mut Out, rng: &mut Rng, n: usize) {
     }
 }
 
+/// direct edits of the catalog tables, then table creation: a definition whose rows collide with
+/// rows already in `_Validation` / `_Columns` / `_Tables` is refused, and refused BEFORE anything
+/// is written (defect D23: it used to fail after the first two catalog inserts)
+fn gen_catalog_edits_directed(out: &mut Out, rng: &mut Rng, n: usize) {
+    let k = hex_of_str("K");
+    let v = hex_of_str("V");
+    let planned = hex_of_str("Planned");
+    for case in 0..n {
+        out.req("new", format!("new {}", case % 3));
+        out.req("create_table", format!("create_table {} {k}:i16:K:-:-:-:-", hex_of_str("Other")));
+        out.req("snapshot", "snapshot".into());
+        let stale = match case % 4 {
+            0 => format!("insert {} 1 10 S{planned} S{k} S{} N N N N N N N", hex_of_str("_Validation"), hex_of_str("N")),
+            1 => format!("insert {} 1 10 S{planned} S{v} S{} N N N N N N N", hex_of_str("_Validation"), hex_of_str("Y")),
+            2 => format!("insert {} 1 4 S{planned} I1 S{k} I9474", hex_of_str("_Columns")),
+            _ => format!("insert {} 1 1 S{planned}", hex_of_str("_Tables")),
+        };
+        out.req("catalog_edit", stale);
+        out.req("snapshot", "snapshot".into());
+        if rng.chance(1, 2) {
+            out.req("reopen", format!("reopen {}", rng.pick(&crate::hist::CLOSE_MODES)));
+            out.req("snapshot", "snapshot".into());
+        }
+        // a definition that collides (column K / V), and one that does not
+        out.req("create_table", format!("create_table {planned} {k}:i16:K:-:-:-:- {v}:s8:N:-:-:-:-"));
+        out.req("snapshot", "snapshot".into());
+        out.req("create_table", format!("create_table {} {k}:i16:K:-:-:-:-", hex_of_str("Fine")));
+        out.req("snapshot", "snapshot".into());
+        out.req("reopen", format!("reopen {}", crate::hist::CLOSE_MODES[case % 3]));
+        out.req("snapshot", "snapshot".into());
+        out.req("raw", "raw".into());
+    }
+}
+
+/// a signed package, calls that are refused, then a save: nothing may have changed - the signature
+/// included (a refused call must not even arm something that acts at save time)
+fn gen_signed_rejected_directed(out: &mut Out, rng: &mut Rng, n: usize) {
+    let base = c09_bases()[0].clone();
+    for case in 0..n {
+        let mut e = base.clone();
+        e.push(("\u{5}DigitalSignature".to_string(), vec![7u8; 90 + case]));
+        if case % 2 == 0 {
+            e.push(("\u{5}MsiDigitalSignatureEx".to_string(), vec![1, 2, 3, 4]));
+        }
+        out.req("load_signed", format!("load {} {}", case % 3, entries_tok(&e)));
+        out.req("snapshot", "snapshot".into());
+        let items = hex_of_str("Items");
+        match case % 6 {
+            0 => out.req("rejected", format!("insert {items} 1 3 I1 S{} I7", hex_of_str("duplicate key"))),
+            1 => out.req("rejected", format!("insert {items} 1 2 I77 S{}", hex_of_str("too few values"))),
+            2 => out.req("rejected", format!("update {items} 1 {} I5 -", hex_of_str("NoSuchColumn"))),
+            3 => out.req("rejected", format!("delete {} -", hex_of_str("NoSuchTable"))),
+            4 => out.req("rejected", format!("create_table {items} {}:i16:K:-:-:-:-", hex_of_str("K"))),
+            _ => out.req("rejected", format!("stream_remove {}", hex_of_str("no such stream"))),
+        }
+        out.req("snapshot", "snapshot".into());
+        match case % 3 {
+            0 => out.req("flush", "flush".into()),
+            _ => out.req("reopen", format!("reopen {}", rng.pick(&crate::hist::CLOSE_MODES))),
+        }
+        out.req("snapshot", "snapshot".into());
+        out.req("has_sig", "has_sig".into());
+    }
+}
+
+/// limits of the catalog tables met by a value that already appeared, harmlessly, in another
+/// catalog column of the same definition (a long name that is also a foreign-key table, a
+/// foreign-key column number that is also a range bound): refused, and nothing written
+fn gen_limits_repeated_values(out: &mut Out) {
+    let k = hex_of_str("K");
+    for len in [33usize, 40, 64] {
+        let long = "N".repeat(len);
+        let lh = hex_of_str(&long);
+        for order in 0..2 {
+            out.req("new", "new 0".into());
+            out.req("snapshot", "snapshot".into());
+            let fkcol = format!("{}:s8:N:-:{lh},1:-:-", hex_of_str("Ref"));
+            let longcol = format!("{lh}:i16:N:-:-:-:-");
+            let cols = if order == 0 { format!("{k}:i16:K:-:-:-:- {fkcol} {longcol}") } else { format!("{k}:i16:K:-:-:-:- {longcol} {fkcol}") };
+            out.req("repeated_value", format!("create_table {} {cols}", hex_of_str("Shortcuts")));
+            out.req("snapshot", "snapshot".into());
+            out.req("reopen", "reopen flush".into());
+            out.req("snapshot", "snapshot".into());
+            out.req("create_table", format!("create_table {} {k}:i16:K:-:-:-:-", hex_of_str("Shortcuts")));
+            out.req("snapshot", "snapshot".into());
+        }
+    }
+    for n in [33i32, 40, 100, 32767] {
+        for order in 0..2 {
+            out.req("new", "new 0".into());
+            out.req("snapshot", "snapshot".into());
+            let ranged = format!("{}:i32:N:{n},{}:-:-:-", hex_of_str("Size"), n + 5);
+            let fkcol = format!("{}:s8:N:-:{},{n}:-:-", hex_of_str("Ref"), hex_of_str("Other"));
+            let cols = if order == 0 { format!("{k}:i16:K:-:-:-:- {ranged} {fkcol}") } else { format!("{k}:i16:K:-:-:-:- {fkcol} {ranged}") };
+            out.req("repeated_value", format!("create_table {} {cols}", hex_of_str("KeyColumn")));
+            out.req("snapshot", "snapshot".into());
+            out.req("reopen", "reopen into_inner".into());
+            out.req("snapshot", "snapshot".into());
+        }
+    }
+}
+
 fn gen_hist_prop(prop: &str, out: &mut Out, rng: &mut Rng, thorough: bool) {
     use crate::hist::*;
     let mut cfg = HistCfg {
@@ -1215,11 +1353,19 @@ fn gen_hist_prop(prop: &str, out: &mut Out, rng: &mut Rng, thorough: bool) {
         }
         "C04" => {
             cfg.raw = false;
+            gen_catalog_edits_directed(out, rng, if thorough { 200 } else { 16 });
+            gen_signed_rejected_directed(out, rng, if thorough { 120 } else { 12 });
+            gen_limits_repeated_values(out);
             // a refused insert into a table that is exactly full, or one row short of it
             out.req("rows_limit", "@rows_limit 65536 1".into());
             out.req("rows_limit", "@rows_limit 65535 2 1".into());
         }
         "C01" => {
+            // one text referred to by about 2^16 cells: the 16-bit reference count of its pool
+            // entry fills up and a second entry with the same text begins
+            for n in if thorough { vec![3usize, 65530, 65531, 65532, 65533, 65534, 65535, 65536] } else { vec![65532usize, 65533, 65534] } {
+                out.req("refcount_saturation", format!("@refcount_saturation {n}"));
+            }
             gen_c01_directed(out, rng, if thorough { 1500 } else { 90 });
             gen_refs_up_directed(out, rng, if thorough { 300 } else { 24 });
             gen_pages_directed(out, rng, if thorough { 6 } else { 1 });
@@ -1228,6 +1374,7 @@ fn gen_hist_prop(prop: &str, out: &mut Out, rng: &mut Rng, thorough: bool) {
         }
         "C08" => {
             cfg.summary = false;
+            gen_catalog_edits_directed(out, rng, if thorough { 200 } else { 16 });
             gen_c08_directed(out, rng, if thorough { 600 } else { 60 });
             gen_long_strings_directed(out, rng, thorough);
             gen_refs_up_directed(out, rng, if thorough { 300 } else { 24 });
@@ -1323,9 +1470,11 @@ fn c12_tree(rng: &mut Rng, depth: usize, db: &crate::refdb::RefDb, tables: &[&st
 }
 
 fn gen_c12(out: &mut Out, rng: &mut Rng, thorough: bool) {
+    gen_c12_sessions(out, rng, if thorough { 300 } else { 12 }, if thorough { 1500 } else { 700 });
+}
+
+fn gen_c12_sessions(out: &mut Out, rng: &mut Rng, sessions: usize, per: usize) {
     use crate::refdb::*;
-    let sessions = if thorough { 300 } else { 12 };
-    let per = if thorough { 1500 } else { 700 };
     for sidx in 0..sessions {
         out.req("new", "new 0".into());
         let mut db = RefDb::default();
@@ -1665,6 +1814,7 @@ fn gen_c20(out: &mut Out, rng: &mut Rng, thorough: bool) {
         out.req("reopen", "reopen into_inner".into());
         out.req("snapshot", "snapshot".into());
     }
+    gen_limits_repeated_values(out);
     // names: table names around 31/32/33 and 60/61 characters; stream names around the limit
     out.req("new", "new 0".into());
     for len in [30usize, 31, 32, 33, 59, 60, 61, 62, 63] {
@@ -2252,6 +2402,27 @@ fn gen_c09(out: &mut Out, rng: &mut Rng, thorough: bool) {
             }
         }
     }
+    // a summary property set that declares no property at all, edited without adding one
+    {
+        use crate::decode::{write_propset, PropLayout};
+        let pl = PropLayout { version: 0, os: 2, os_version: 10, section_gap: 0, table_order: vec![], value_order: vec![], gaps: vec![] };
+        for (j, edit) in ["sum_clear title", "sum_clear uuid", "sum_set author 4a", "snapshot"].iter().enumerate() {
+            let mut e = bases[0].clone();
+            let data = write_propset(&[], &pl);
+            match e.iter_mut().find(|x| x.0.starts_with('\u{5}')) {
+                Some(x) => x.1 = data,
+                None => e.push(("\u{5}SummaryInformation".to_string(), data)),
+            }
+            out.req("summary_empty", format!("load {} {}", j % 3, entries_tok(&e)));
+            out.req("ffi", "@ffi_check".into());
+            out.req("battery", "snapshot".into());
+            out.req("battery", edit.to_string());
+            out.req("battery", "flush".into());
+            out.req("battery", "snapshot".into());
+            out.req("battery", format!("reopen {}", crate::hist::CLOSE_MODES[j % 3]));
+            out.req("battery", "snapshot".into());
+        }
+    }
     out.req("wrong_clsid", format!("load none {}", entries_tok(&bases[0])));
     out.req("battery", "snapshot".into());
     let n = if thorough { 60_000 } else { 1_200 };
@@ -2429,8 +2600,9 @@ fn gen_c02(out: &mut Out, rng: &mut Rng, thorough: bool) {
         };
         entries.push(("\u{5}SummaryInformation".to_string(), write_propset(&props, &pl)));
         // a couple of binary streams
-        for sname in ["logo", "Bin.2"] {
-            if rng.chance(1, 3) {
+        // (names whose packable runs start at odd and at even offsets, after characters that are not packed)
+        for sname in ["logo", "Bin.2", "read-me.txt", "My App.exe", "note-2.txt", "x-ray.png", "a b c", "#1 (x86).cab", "ab--cd", "\u{65e5}\u{672c}-ab.c", "a-bcd", "-abcd"] {
+            if rng.chance(1, 4) {
                 entries.push((pack_name(sname, false), (0..rng.below(300)).map(|i| i as u8).collect()));
             }
         }
